@@ -283,8 +283,22 @@ class IndexRun:
                 self.nontrivial += 1
         if len(self.samples) < 1 and used:
             self.samples.append({"config": {k: self.cfg[k] for k in ("frontend", "index_threshold", "paranoid")}, "filter": op["filter"], "members": sorted(self.members), "result": sorted(a) if a else a, "twin": sorted(b) if b else b})
-        ft = "time-range" if (op["filter"].get("time") or (isinstance((op["filter"].get("prop") or {}).get("test"), dict) and "time" in op["filter"]["prop"]["test"])) else (
-            "prop" if op["filter"].get("prop") else "comp")
+        f = op["filter"]
+        pt = (f.get("prop") or {}).get("test")
+        if f.get("time"):
+            ft = "comp-time-range"
+        elif isinstance(pt, dict) and "time" in pt:
+            ft = "prop-time-range"
+        elif isinstance(pt, dict) and "text" in pt:
+            ft = "text-match-negated" if pt.get("negate") else "text-match"
+        elif pt == "absent":
+            ft = "prop-is-not-defined"
+        elif pt == "present":
+            ft = "prop-present"
+        elif f.get("comp_absent"):
+            ft = "comp-is-not-defined"
+        else:
+            ft = "comp"
         if (r.status if r else None) != st:
             if st == 207 or (r and r.status == 207):
                 anymulti = any(self.multi_component({n}) for n in sorted(self.members))
